@@ -51,3 +51,105 @@ Theorem C20_independent :
       (guns, map (fun ie => spec_result desc msg payload reencode fits code_of_status respond t timeout (snd ie)) sched).
 Proof. exact run_instances_spec. Qed.
 Print Assumptions C20_independent.
+
+From PV Require Import Proofs.GrpcExampleProofs.
+
+(* gRPC scenario calls, FULL statement: any number of instances (guns with their own template
+   caches over the SHARED step definitions), any interleaving of their step executions, any
+   variables: the shared definitions end exactly as configured, and every step execution has the
+   outcome obtained by rendering the CONFIGURED payload and metadata templates with that
+   execution's variables — method = the step's call, metadata = the rendered configured
+   metadata, configured timeout (see spec_step).  Hypotheses: a call name denotes one definition
+   (the provider's call registry is keyed by name) and every metadata cell is a map. *)
+Theorem C20_scenario_metadata :
+  forall (desc msg tmpl vars : Type) (parse_t : gbytes -> option tmpl) (exec_t : tmpl -> vars -> option gbytes)
+         (fits_text : desc -> gbytes -> option msg)
+         (h : heap) (defs : list step) (t : mtable desc) (timeout : Z) (evs : list (sevent vars)),
+    steps_wf h defs ->
+    forall guns : list (sgun desc tmpl),
+    Forall (gun_ok desc tmpl parse_t h defs t timeout) guns ->
+    Forall (fun e => In (ev_step vars e) defs /\ ev_inst vars e < length guns) evs ->
+    exists guns',
+      run_events desc msg tmpl vars parse_t exec_t fits_text h guns evs =
+        (h, guns', map (fun e => spec_step desc msg tmpl vars parse_t exec_t fits_text t timeout h (ev_step vars e) (ev_vars vars e)) evs) /\
+      Forall (gun_ok desc tmpl parse_t h defs t timeout) guns' /\ length guns' = length guns.
+Proof. exact run_events_spec. Qed.
+Print Assumptions C20_scenario_metadata.
+
+(* a freshly created gun (empty template cache) satisfies the invariant *)
+Theorem C20_fresh_gun_ok :
+  forall (desc tmpl : Type) (parse_t : gbytes -> option tmpl) h defs (t : mtable desc) timeout,
+    gun_ok desc tmpl parse_t h defs t timeout (mkSGun desc tmpl t timeout []).
+Proof. intros. repeat split. apply cache_ok_nil. Qed.
+Print Assumptions C20_fresh_gun_ok.
+
+(* a whole scenario shot: the specified outcomes of its steps up to and including the first step
+   that is not sent; a failing step stops this shot only (the gun and the shared definitions stay
+   well-formed for every later shot) *)
+Theorem C20_scenario_shot :
+  forall (desc msg tmpl vars : Type) (parse_t : gbytes -> option tmpl) (exec_t : tmpl -> vars -> option gbytes)
+         (fits_text : desc -> gbytes -> option msg) h defs (t : mtable desc) timeout scn (sts : list (step * vars)),
+    steps_wf h defs -> Forall (fun sv => In (fst sv) defs) sts ->
+    forall g, gun_ok desc tmpl parse_t h defs t timeout g ->
+    exists g',
+      shoot_scenario desc msg tmpl vars parse_t exec_t fits_text h g scn sts =
+        (h, g', spec_scenario desc msg tmpl vars parse_t exec_t fits_text t timeout h sts) /\
+      gun_ok desc tmpl parse_t h defs t timeout g'.
+Proof. exact shoot_scenario_ok. Qed.
+Print Assumptions C20_scenario_shot.
+
+(* grpc/json payloads against the example service: the provider decodes numbers into float64 and
+   the gun prints them again.  PARTIAL: the message is the exact interpretation of the payload
+   (and the whole code-shaped replay equals the specification) under the guard that every integer
+   literal is below 2^53 in magnitude.  Missing for the full statement: integers beyond 2^53 —
+   refuted below (known finding json:message-int64-precision). *)
+Theorem C20_json_message_partial :
+  forall (sd : Z -> option Z) (code_of_status : N -> N) (respond : sent msg_c -> N),
+    (forall d fs, fields_small fs = true -> interp d (reencode_c sd fs) = interp d fs) /\
+    (forall n timeout es, n <> 0 ->
+       Forall (fun e => fields_small (e_payload fields e) = true) es ->
+       json_model sd code_of_status respond n timeout es = json_spec code_of_status respond timeout es).
+Proof. intros. split; [intros d fs; apply interp_reencode|apply json_model_is_spec]. Qed.
+Print Assumptions C20_json_message_partial.
+
+(* The full statement "every int64 written as a JSON number arrives as written" is false of the
+   faithful model: whatever decimal Go prints for a float64 (it depends on the float64 only), some
+   in-range integer is re-encoded as something else. *)
+Theorem C20_json_int64_refuted :
+  forall sd : Z -> option Z, (forall z, sd z = sd (f64_round z)) ->
+  exists z, in_int64 z = true /\ reencode_int sd z <> PInt z.
+Proof. exact reencode_int_lossy. Qed.
+Print Assumptions C20_json_int64_refuted.
+
+(* ---------- non-vacuity ---------- *)
+
+Definition ex_tok : gbytes := [123;123;46;117;46;116;111;107;101;110;125;125]%N.   (* {{.u.token}} *)
+Definition ex_step : step := mkStep [97]%N [116]%N (b_prefix ++ [72;101;108;108;111]%N) 0 [123;125]%N.
+Definition ex_heap : heap := [[([107]%N, [66;32]%N ++ ex_tok)]].
+
+(* the hypotheses of C20_scenario_metadata are satisfiable … *)
+Example C20_steps_wf_example : steps_wf ex_heap [ex_step].
+Proof.
+  split.
+  - intros s1 s2 [<-|[]] [<-|[]] _. reflexivity.
+  - intros s [<-|[]] k t1 t2 [H1|[]] [H2|[]]. congruence.
+Qed.
+
+(* … and on this definition two guns with different variables send different metadata, each the
+   rendering of the configured template, and the shared heap is unchanged *)
+Example C20_two_guns_example :
+  let guns := sguns_of 2 0 in
+  let evs := [mkEv vars_c 0 [115]%N ex_step (Some ([65;65;65]%N, [49]%N));
+              mkEv vars_c 1 [115]%N ex_step (Some ([66;66;66]%N, [50]%N))] in
+  let '(h', _, outs) := run_events desc_c msg_c tmpl_c vars_c parse_t_c exec_t_c fits_text_c ex_heap guns evs in
+  h' = ex_heap /\
+  map (fun o => match o with Sent s => s_meta s | _ => [] end) outs =
+    [[([107]%N, [66;32;65;65;65]%N)]; [([107]%N, [66;32;66;66;66]%N)]].
+Proof. vm_compute. split; reflexivity. Qed.
+
+(* the hypotheses of C20_independent are met by n guns built from one config *)
+Example C20_independent_example :
+  Forall (fun g => g = mkGun desc_c example_table 0) (mk_guns 3 0) /\
+  Forall (fun ie : nat * entry fields => fst ie < length (mk_guns 3 0))
+         (round_robin 3 0 [mkEntry fields [] [] [] []; mkEntry fields [] [] [] []]).
+Proof. split; repeat constructor. Qed.
